@@ -113,14 +113,15 @@ var progs = map[string]*prog{}
 
 func progFor(decl []int) (*prog, error) {
 	parts := make([]string, len(decl))
-	for i, b := range decl {
-		parts[i] = strconv.Itoa(b)
+	for i, b := range decl { // half units
+		parts[i] = strconv.FormatFloat(float64(b)/2, 'g', -1, 64)
 	}
 	key := strings.Join(parts, ", ")
 	if p, ok := progs[key]; ok {
 		return p, nil
 	}
-	src := "histogram h by k buckets " + key + "\n/^(\\S+) (\\S+)$/ {\n  h[$1] = float($2)\n}\n"
+	// two ways in: a float-typed observation (fset) and an int-typed one (iset -> datum.SetInt on the buckets)
+	src := "histogram h by k buckets " + key + "\n/^f (\\S+) (\\S+)$/ {\n  h[$1] = float($2)\n}\n/^i (\\S+) (-?\\d+)$/ {\n  h[$1] = $2\n}\n"
 	c, err := compiler.New()
 	if err != nil {
 		return nil, err
@@ -196,7 +197,11 @@ func run(n int, c *tcase, expo bool) (g got, why string, err error) {
 	}
 	var d datum.Datum
 	for i, o := range c.Obs {
-		p.v.ProcessLogLine(ctx, logline.New(ctx, "c21", key+" "+text(o)))
+		how := "f"
+		if n%2 == 1 && o != negInf && o != posInf && o != nan && o%2 == 0 { // a whole number, every other case: as an int
+			how = "i"
+		}
+		p.v.ProcessLogLine(ctx, logline.New(ctx, "c21", how+" "+key+" "+text(o)))
 		p.m.RLock()
 		lv := p.m.FindLabelValueOrNil([]string{key})
 		p.m.RUnlock()
